@@ -261,8 +261,14 @@ def compare_shard(suite, shard, outs, stats, divs, maxdiv=200, collect=None, sat
             m, mi = nxt(ml, mi); i, ii = nxt(il, ii)
             if m != i and not i.startswith('<skipped') and len(divs) < maxdiv: divs.append(Div(suite, header, cfg, ops, len(ops), 'spec', m, i))
 
+def set_timeout(ctx):
+    # a shard of the quick tier takes seconds, one of the thorough tier (large vmem histories) up to a few minutes
+    global IMPL_TIMEOUT
+    IMPL_TIMEOUT = int(os.environ.get('VERIF_IMPL_TIMEOUT', '240' if ctx.tier == 'quick' else '2400'))
+
 def run(ctx, seqrun, suites, collect=None, mode='seq', satlog=None):
     """suites: list of (name, model-generator-args). Returns (stats, divergences)."""
+    set_timeout(ctx)
     stats = Stats(); divs = []
     for name, genargs in suites:
         hist = os.path.join(ctx.work, f'{name}.hist')
@@ -277,6 +283,7 @@ def run(ctx, seqrun, suites, collect=None, mode='seq', satlog=None):
     return stats, divs
 
 def run_files(ctx, seqrun, name, files, mode='seq'):
+    set_timeout(ctx)
     stats = Stats(); divs = []
     for f in files:
         shard, outs = run_one((seqrun, f, mode))
